@@ -319,11 +319,33 @@ func (e *Engine) newTrans(fn *ssa.Function, c *Contract) *FnTrans {
 		vals: map[ssa.Value]Val{}, in: map[*ssa.BasicBlock]*BState{}, out: map[*ssa.BasicBlock]*BState{},
 		sites: map[ssa.CallInstruction]*Site{}, siteByAlias: map[string]*Site{}, siteDeclOf: map[ssa.CallInstruction][]string{},
 		abstracted: map[string]int{}, usedSpecs: map[string]bool{}, lets: map[string]*Expr{}, siteInstr: map[string]ssa.CallInstruction{}, ghostSites: map[string]*Site{}, loopInfo: map[int]string{},
-		closures: map[string]*ssa.MakeClosure{}, usedGlobalInvs: map[string]Clause{}, heapAnc: map[string][]*frameFact{}, frameDone: map[string]bool{}, escCache: map[*ssa.Alloc]bool{}, autoInvs: map[*ssa.BasicBlock]func(string, int) string{}, autoPhis: map[*ssa.BasicBlock][]*ssa.Phi{}, ifaceTests: map[string]types.Type{}}
+		closures: map[string]*ssa.MakeClosure{}, usedGlobalInvs: map[string]Clause{}, heapAnc: map[string][]*frameFact{}, baseAC: map[string]string{}, heapBases: map[string][]string{}, baseDone: map[string]bool{}, frameDone: map[string]bool{}, escCache: map[*ssa.Alloc]bool{}, autoInvs: map[*ssa.BasicBlock]func(string, int) string{}, autoPhis: map[*ssa.BasicBlock][]*ssa.Phi{}, ifaceTests: map[string]types.Type{}}
 	if c != nil {
 		tr.props = c.Props
 	}
+	tr.smt.onFreshHeap = func(n, ac string) {
+		if ac == "" {
+			ac = "ac0"
+		}
+		tr.baseAC[n] = ac
+		tr.heapBases[n] = []string{n}
+	}
 	tr.smt.onDerive = func(n string, from []string) {
+		{
+			var bs []string
+			seenB := map[string]bool{}
+			for _, f := range from {
+				for _, b := range tr.heapBases[f] {
+					if !seenB[b] {
+						seenB[b] = true
+						bs = append(bs, b)
+					}
+				}
+			}
+			if len(bs) > 0 {
+				tr.heapBases[n] = bs
+			}
+		}
 		var anc []*frameFact
 		seen := map[*frameFact]bool{}
 		for _, f := range from {
